@@ -228,18 +228,44 @@ def probe_ids(router_mod):
 
 
 # ----------------------------------------------------------------------------------------------- probing: client
+def _probe_connection(client_mod):
+    """A connection in the state in which an application calls addMatch: authenticated and Hello answered, by the
+    public handshake on a StringTransport - so that whatever per-connection state addMatch consults (the local
+    router, the table of rule texts, ...) exists.  Fallback: an uninitialised instance, enough for an addMatch
+    that only formats the text and calls callRemote."""
+    try:
+        from twisted.internet.testing import StringTransport
+        from txdbus import message
+        c = client_mod.DBusClientConnection()
+        c.factory = client_mod.DBusClientFactory()
+        t = StringTransport()
+        c.makeConnection(t)
+        t.clear()
+        c.dataReceived(b'OK 1234deadbeef\r\n')
+        raw = t.value()
+        hello = message.parseMessage(raw[raw.index(b'BEGIN\r\n') + 7:], [])
+        c.dataReceived(message.MethodReturnMessage(hello.serial, body=[':1.7'], signature='s',
+                                                   destination=':1.7').rawMessage)
+        if c.busName == ':1.7':
+            return c
+    except Exception:
+        pass
+    return object.__new__(client_mod.DBusClientConnection)
+
+
 def probe_client(client_mod):
     """-> ([(text key, parameter)], escapes)"""
     from twisted.internet import defer
-    c = object.__new__(client_mod.DBusClientConnection)
     sent = []
 
     def call_remote(path, member, **kw):
         sent.append((member, kw.get('body')))
         return defer.Deferred()
-    c.callRemote = call_remote
 
     def text(**kw):
+        # a fresh connection per probe: the text written for one rule must not depend on earlier probes
+        c = _probe_connection(client_mod)
+        c.callRemote = call_remote
         del sent[:]
         c.addMatch(lambda m: None, **kw)
         if len(sent) != 1 or sent[0][0] != 'AddMatch' or len(sent[0][1]) != 1:
